@@ -29,7 +29,8 @@ RULE = ("a case is one request history on one parsed library (every class of eve
 TRUSTED = ["canonical form of a flat model = Node.to_json of the returned tree (all symbols with attributes, equations, "
            "functions), of a CasADi model = names/attributes of its variable lists and the printed MX residuals",
            "the write footprint of tree.flatten is observed (snapshot diff per request), not proved"]
-ASSUMPTIONS = ["the lookup cache that _find_class keeps for unqualified imports (Class.imports[name] = ComponentRef) is not part "
+ASSUMPTIONS = ["an outcome RecursionError on one side only is not compared (the depth at which CPython's recursion limit is hit depends on the caller's stack); counted as recursion-limit-not-compared",
+               "the lookup cache that _find_class keeps for unqualified imports (Class.imports[name] = ComponentRef) is not part "
                "of the observed state of the parsed tree",
                "fresh parse = pymoca.parser.parse(text, bypass_cache=True) of the same source text; after the first request of a "
                "history the fresh tree is an unpickled copy of that parse result pickled before any use (what the parse cache "
@@ -250,7 +251,9 @@ def check_history(ctx, case, drv):
         else:
             got = do_request(t, op, path)
         ctx.count("step-%s-%s" % (op, "ok" if exp[0] == "ok" else "fails-fresh"))
-        if got != exp:
+        if got != exp and ("exc", "RecursionError") in (got, exp):
+            ctx.count("recursion-limit-not-compared")
+        elif got != exp:
             ctx.violation("%s of a class gives a different result after earlier requests on the same tree than on a "
                           "fresh parse (%s)" % (op, describe(exp, got)),
                           dict(case, upto=i + 1), expected=_short(exp), observed=_short(got), kind="history")
